@@ -1,5 +1,6 @@
 import WebPkg.Spec.Bundle
 import WebPkg.Proofs.SxgSpec
+import WebPkg.Proofs.Variants
 /-
   The writer of go/bundle (model: Model/Bundle.lean, section "writer") only emits well-formed bundles
   (spec: Spec/Bundle.lean).
@@ -225,12 +226,6 @@ theorem write_ok (b : Bundle) (out : Bytes) (h : write b = .ok (.ok out)) :
                   injection h with h
                   injection h with h
                   exact ⟨respBuf, entries, indexBytes, p, m, s, hd, rfl, h2, rfl, rfl, rfl, rfl, h.symm⟩
-
-theorem encodeHead_length_of_lt (mt n : Nat) (h1 : 2 ^ 8 ≤ n) (h2 : n < 2 ^ 16) : (encodeHead mt n).length = 3 := by
-  unfold encodeHead
-  have a : ¬ n < 24 := by omega
-  have b : ¬ n < 2 ^ 8 := by omega
-  simp [a, b, h2]
 
 theorem footer_length (x : Nat) : (encodeBytes (beBytes 8 x)).length = 9 := by
   unfold encodeBytes
@@ -488,5 +483,339 @@ theorem write_b2_wellFormed (b : Bundle) (hv : b.version = .b2) (out : Bytes) (h
   · refine ⟨indexBytes, p ++ m ++ s, respBuf, ?_, hrs, finalizeIndex_b2_isIndex entries indexBytes respBuf rs hl h2⟩
     unfold sectionsOf
     simp only [List.append_assoc, List.cons_append, List.nil_append]
+
+/-! ### c. version b1 (index with variants) -/
+
+theorem mapM_some_mem {α β : Type} (f : α → Option β) (l : List α) (out : List β) (h : l.mapM f = some out) :
+    out.length = l.length ∧ ∀ y ∈ out, ∃ x ∈ l, f x = some y := by
+  induction l generalizing out with
+  | nil =>
+    rw [List.mapM_nil] at h
+    injection h with h
+    subst h
+    exact ⟨rfl, by simp⟩
+  | cons a l ih =>
+    rw [List.mapM_cons] at h
+    cases ha : f a with
+    | none => rw [ha] at h; cases h
+    | some b =>
+      cases hl : l.mapM f with
+      | none => rw [ha, hl] at h; cases h
+      | some bs =>
+        rw [ha, hl] at h
+        injection h with h
+        subst h
+        obtain ⟨e1, e2⟩ := ih bs hl
+        refine ⟨by simp [e1], ?_⟩
+        intro y hy
+        rcases List.mem_cons.mp hy with hy | hy
+        · subst hy; exact ⟨a, List.mem_cons_self, ha⟩
+        · obtain ⟨x, hx, hfx⟩ := e2 y hy
+          exact ⟨x, List.mem_cons_of_mem _ hx, hfx⟩
+
+/-- one step of the inner loop of `entriesInPossibleKeyOrder`: put `e` at the index of the key `vk` -/
+def placeKey (variants : List (List Bytes)) (e : IndexEntry) (acc : Option (List (Option IndexEntry)))
+    (vk : List Bytes) : Option (List (Option IndexEntry)) :=
+  match acc with
+  | none => none
+  | some r =>
+    match indexInPossibleKeys variants vk with
+    | none => none
+    | some i => if (r.getD i none).isSome then none else some (r.set i (some e))
+
+/-- one step of the outer loop: all the keys of the entry `e` -/
+def placeEntry (variants : List (List Bytes)) (first : IndexEntry) (result : Option (List (Option IndexEntry)))
+    (e : IndexEntry) : Option (List (Option IndexEntry)) :=
+  match result with
+  | none => none
+  | some res =>
+    if e.variants ≠ first.variants then none
+    else match parseListOfStringLists e.variantKey with
+      | none => none
+      | some vks => vks.foldl (placeKey variants e) (some res)
+
+theorem entriesInPossibleKeyOrder_eq (es : List IndexEntry) : entriesInPossibleKeyOrder es =
+    match es with
+    | [] => none
+    | first :: _ =>
+      if first.variants.isEmpty then none
+      else match parseListOfStringLists first.variants with
+        | none => none
+        | some variants =>
+          match numberOfPossibleKeys variants 1 with
+          | none => none
+          | some num =>
+            match es.foldl (placeEntry variants first) (some (List.replicate num none)) with
+            | none => none
+            | some res => res.mapM id := by
+  cases es <;> rfl
+
+/-- slots hold only entries satisfying `P`, and the number of slots does not change -/
+def SlotsInv (P : IndexEntry → Prop) (num : Nat) (r : List (Option IndexEntry)) : Prop :=
+  r.length = num ∧ ∀ e, some e ∈ r → P e
+
+theorem foldl_placeKey_none (variants : List (List Bytes)) (e : IndexEntry) (vks : List (List Bytes)) :
+    vks.foldl (placeKey variants e) none = none := by
+  induction vks with
+  | nil => rfl
+  | cons vk vks ih => rw [List.foldl_cons]; exact ih
+
+theorem foldl_placeKey_inv (P : IndexEntry → Prop) (num : Nat) (variants : List (List Bytes)) (e : IndexEntry)
+    (he : P e) (vks : List (List Bytes)) (r r' : List (Option IndexEntry)) (hr : SlotsInv P num r)
+    (h : vks.foldl (placeKey variants e) (some r) = some r') : SlotsInv P num r' := by
+  induction vks generalizing r with
+  | nil =>
+    rw [List.foldl_nil] at h
+    injection h with h
+    subst h
+    exact hr
+  | cons vk vks ih =>
+    rw [List.foldl_cons] at h
+    cases hs : placeKey variants e (some r) vk with
+    | none => rw [hs, foldl_placeKey_none] at h; cases h
+    | some r1 =>
+      rw [hs] at h
+      apply ih r1 _ h
+      unfold placeKey at hs
+      dsimp only at hs
+      cases hi : indexInPossibleKeys variants vk with
+      | none => simp only [hi] at hs; cases hs
+      | some i =>
+        simp only [hi] at hs
+        by_cases hc : (r.getD i none).isSome = true
+        · rw [if_pos hc] at hs; cases hs
+        · rw [if_neg hc] at hs
+          injection hs with hs
+          subst hs
+          refine ⟨by rw [List.length_set]; exact hr.1, ?_⟩
+          intro x hx
+          rcases List.mem_or_eq_of_mem_set hx with hx | hx
+          · exact hr.2 x hx
+          · injection hx with hx
+            subst hx; exact he
+
+theorem foldl_placeEntry_none (variants : List (List Bytes)) (first : IndexEntry) (es : List IndexEntry) :
+    es.foldl (placeEntry variants first) none = none := by
+  induction es with
+  | nil => rfl
+  | cons e es ih => rw [List.foldl_cons]; exact ih
+
+theorem foldl_placeEntry_inv (P : IndexEntry → Prop) (num : Nat) (variants : List (List Bytes)) (first : IndexEntry)
+    (es : List IndexEntry) (hes : ∀ e ∈ es, P e) (r r' : List (Option IndexEntry)) (hr : SlotsInv P num r)
+    (h : es.foldl (placeEntry variants first) (some r) = some r') : SlotsInv P num r' := by
+  induction es generalizing r with
+  | nil =>
+    rw [List.foldl_nil] at h
+    injection h with h
+    subst h
+    exact hr
+  | cons e es ih =>
+    rw [List.foldl_cons] at h
+    cases hs : placeEntry variants first (some r) e with
+    | none => rw [hs, foldl_placeEntry_none] at h; cases h
+    | some r1 =>
+      rw [hs] at h
+      apply ih (fun x hx => hes x (List.mem_cons_of_mem _ hx)) r1 _ h
+      unfold placeEntry at hs
+      dsimp only at hs
+      by_cases hc : e.variants ≠ first.variants
+      · rw [if_pos hc] at hs; cases hs
+      · rw [if_neg hc] at hs
+        cases hp : parseListOfStringLists e.variantKey with
+        | none => simp only [hp] at hs; cases hs
+        | some vks =>
+          simp only [hp] at hs
+          exact foldl_placeKey_inv P num variants e (hes e List.mem_cons_self) vks r r1 hr hs
+
+/-- the entries in possible-key order are as many as there are possible keys (at least one) and each of them is
+    one of the entries of the group -/
+theorem entriesInPossibleKeyOrder_spec (es out : List IndexEntry) (h : entriesInPossibleKeyOrder es = some out) :
+    out ≠ [] ∧ (∀ e ∈ out, e ∈ es) ∧
+      ∃ variants num, (∃ first, es.head? = some first ∧ parseListOfStringLists first.variants = some variants) ∧
+        numberOfPossibleKeys variants 1 = some num ∧ out.length = num := by
+  rw [entriesInPossibleKeyOrder_eq] at h
+  cases es with
+  | nil => cases h
+  | cons first rest =>
+    dsimp only at h
+    by_cases h0 : first.variants.isEmpty = true
+    · rw [if_pos h0] at h; cases h
+    · rw [if_neg h0] at h
+      cases h1 : parseListOfStringLists first.variants with
+      | none => simp only [h1] at h; cases h
+      | some variants =>
+        simp only [h1] at h
+        cases h2 : numberOfPossibleKeys variants 1 with
+        | none => simp only [h2] at h; cases h
+        | some num =>
+          simp only [h2] at h
+          cases h3 : (first :: rest).foldl (placeEntry variants first) (some (List.replicate num none)) with
+          | none => simp only [h3] at h; cases h
+          | some res =>
+            simp only [h3] at h
+            obtain ⟨hl, hm⟩ := mapM_some_mem id res out h
+            have hinv : SlotsInv (· ∈ first :: rest) num res :=
+              foldl_placeEntry_inv (· ∈ first :: rest) num variants first (first :: rest) (fun e he => he) _ res
+                ⟨List.length_replicate, by
+                  intro e he
+                  have := List.eq_of_mem_replicate he
+                  cases this⟩ h3
+            obtain ⟨hn1, _, hn3⟩ := numberOfPossibleKeys_eq variants num h2
+            have hpos := keyCount_pos hn3
+            refine ⟨?_, ?_, variants, num, ⟨first, rfl, h1⟩, h2, by rw [hl, hinv.1]⟩
+            · intro hc
+              rw [hc, hinv.1] at hl
+              simp at hl
+              omega
+            · intro e he
+              obtain ⟨x, hx, hxe⟩ := hm e he
+              exact hinv.2 e (by rw [← show x = some e from hxe]; exact hx)
+
+/-- the per-URL step of `indexSection.Finalize` for b1 -/
+def buildB1 (g : Bytes × List IndexEntry) : Option Entry :=
+  if g.2.length > 1 then
+    match entriesInPossibleKeyOrder g.2 with
+    | none => none
+    | some es =>
+      some (Bundle.tstr g.1, encodeArrayHeader (1 + es.length * 2) ++ encodeBytes (g.2.headD default).variants ++
+        (es.map fun e => encodeUint e.offset ++ encodeUint e.length).flatten)
+  else
+    some (Bundle.tstr g.1, encodeArrayHeader (1 + g.2.length * 2) ++ encodeBytes [] ++
+      (g.2.map fun e => encodeUint e.offset ++ encodeUint e.length).flatten)
+
+theorem finalizeIndex_b1_eq (entries : List IndexEntry) : finalizeIndex .b1 entries =
+    if (groupByUrl entries []).any (fun g => !utf8Valid g.1) then
+      (if BVer.b1 = .b2 ∧ (groupByUrl entries []).any (fun g => g.2.length > 1) then .ok (.error .multipleResources)
+       else .panic)
+    else
+      match (groupByUrl entries []).mapM buildB1 with
+      | none => .ok (.error .variants)
+      | some mes =>
+        match encodeMap mes with
+        | .ok b => .ok (.ok b)
+        | .error e => .ok (.error (.enc e)) := rfl
+
+theorem finalizeIndex_b1 (entries : List IndexEntry) (idx : Bytes) (h : finalizeIndex .b1 entries = .ok (.ok idx)) :
+    (∀ g ∈ groupByUrl entries [], utf8Valid g.1 = true) ∧
+    ∃ mes, (groupByUrl entries []).mapM buildB1 = some mes ∧ encodeMap mes = .ok idx := by
+  rw [finalizeIndex_b1_eq] at h
+  by_cases h1 : (groupByUrl entries []).any (fun g => !utf8Valid g.1) = true
+  · rw [if_pos h1] at h
+    have h2 : ¬ (BVer.b1 = .b2 ∧ (groupByUrl entries []).any (fun g => decide (g.2.length > 1)) = true) :=
+      fun hc => by cases hc.1
+    rw [if_neg h2] at h; cases h
+  · rw [if_neg h1] at h
+    constructor
+    · intro g hg
+      cases hu : utf8Valid g.1 with
+      | true => rfl
+      | false =>
+        exfalso; apply h1
+        exact List.any_eq_true.mpr ⟨g, hg, by simp [hu]⟩
+    · cases hm : (groupByUrl entries []).mapM buildB1 with
+      | none => simp only [hm] at h; cases h
+      | some mes =>
+        simp only [hm] at h
+        refine ⟨mes, rfl, ?_⟩
+        cases he : encodeMap mes with
+        | error e => simp only [he] at h; cases h
+        | ok x =>
+          simp only [he] at h
+          injection h with h
+          injection h with h
+          rw [h]
+
+theorem isIndexValue_b1 (respBuf : Bytes) (rs : List Bytes) (vv : Bytes) (es : List IndexEntry) (hne : es ≠ [])
+    (hd : ∀ e ∈ es, Delimits respBuf rs e.offset e.length) :
+    IsIndexValue .b1 respBuf rs (encodeArrayHeader (1 + es.length * 2) ++ encodeBytes vv ++
+      (es.map fun e => encodeUint e.offset ++ encodeUint e.length).flatten) := by
+  refine ⟨vv, es.map (fun e => (e.offset, e.length)), ?_, ?_, ?_⟩
+  · intro hc
+    apply hne
+    cases es with
+    | nil => rfl
+    | cons a l => simp at hc
+  · intro l hl
+    obtain ⟨e, he, rfl⟩ := List.mem_map.mp hl
+    exact hd e he
+  · rw [List.length_map, List.map_map]
+    rfl
+
+theorem finalizeIndex_b1_isIndex (entries : List IndexEntry) (idx respBuf : Bytes) (rs : List Bytes)
+    (hl : entries.map (fun e => (e.offset, e.length)) = locs (encodeHead 4 rs.length).length rs)
+    (h : finalizeIndex .b1 entries = .ok (.ok idx)) : IsIndex .b1 idx respBuf rs := by
+  obtain ⟨hg, mes, hmes, hm⟩ := finalizeIndex_b1 entries idx h
+  refine ⟨mes, Sxg.encodeMap_isCanonical _ _ hm, ?_⟩
+  intro p hp
+  obtain ⟨_, hmem⟩ := mapM_some_mem buildB1 _ mes hmes
+  obtain ⟨g, hgm, hb⟩ := hmem p hp
+  have hu := hg g hgm
+  obtain ⟨hne, hq⟩ := groupByUrl_inv (fun e => Delimits respBuf rs e.offset e.length) entries []
+    (delimits_of_entry respBuf rs entries hl) (by simp) _ hgm
+  unfold buildB1 at hb
+  by_cases hc : g.2.length > 1
+  · rw [if_pos hc] at hb
+    cases ho : entriesInPossibleKeyOrder g.2 with
+    | none => simp only [ho] at hb; cases hb
+    | some es =>
+      simp only [ho] at hb
+      injection hb with hb
+      subst hb
+      obtain ⟨e1, e2, _⟩ := entriesInPossibleKeyOrder_spec g.2 es ho
+      exact ⟨⟨g.1, rfl, hu⟩, isIndexValue_b1 respBuf rs _ es e1 (fun e he => hq e (e2 e he))⟩
+  · rw [if_neg hc] at hb
+    injection hb with hb
+    subst hb
+    exact ⟨⟨g.1, rfl, hu⟩, isIndexValue_b1 respBuf rs _ g.2 hne hq⟩
+
+/-- (c) a bundle of version b1 that `WriteTo` emits without error is well-formed, including URLs with several
+    variants (no extra hypothesis) -/
+theorem write_b1_wellFormed (b : Bundle) (hv : b.version = .b1) (out : Bytes) (h : write b = .ok (.ok out))
+    (hlen : out.length < 2 ^ 64) : WellFormed .b1 out := by
+  obtain ⟨respBuf, entries, indexBytes, p, m, s, hd, h1, h2, h3, h4, h5, h6, ho⟩ := write_ok b out h
+  obtain ⟨rs, hrs, _, _, _, _, _, hl⟩ := addExchanges_top b respBuf entries h1
+  rw [hv] at h2
+  have hhd : ∃ u, utf8Valid u = true ∧ hd = BVer.magic .b1 ++ Spec.Sxg.tstr u := by
+    unfold headOf at h6
+    rw [hv] at h6
+    dsimp only at h6
+    cases hu : b.primaryURL with
+    | none => rw [hu] at h6; cases h6
+    | some u =>
+      rw [hu] at h6
+      dsimp only at h6
+      unfold encodeText at h6
+      by_cases hval : utf8Valid u = true
+      · rw [if_pos hval] at h6
+        dsimp only at h6
+        injection h6 with h6
+        injection h6 with h6
+        exact ⟨u, hval, h6.symm⟩
+      · rw [if_neg hval] at h6
+        cases h6
+  obtain ⟨u, hu, hhd⟩ := hhd
+  have hp : p = [] := by
+    rcases primarySec_ok b p h3 with hp | ⟨hp, _⟩
+    · exact hp
+    · rw [hv] at hp; cases hp
+  have hm := manifestSec_ok b m h4
+  have hs := sigsSec_ok b s h5
+  refine ⟨hd, sectionsOf indexBytes respBuf p m s, rs, ⟨u, hu, hhd⟩, layout_eq hd _ out ho, hlen, ?_, ?_⟩
+  · apply sections_nodup
+    · exact Or.inl hp
+    · rcases hm with hm | ⟨_, hm⟩
+      · exact Or.inl hm
+      · exact Or.inr hm
+    · exact hs
+  · refine ⟨indexBytes, p ++ m ++ s, respBuf, ?_, hrs, finalizeIndex_b1_isIndex entries indexBytes respBuf rs hl h2⟩
+    unfold sectionsOf
+    simp only [List.append_assoc, List.cons_append, List.nil_append]
+
+/-- both versions -/
+theorem write_wellFormed (b : Bundle) (out : Bytes) (h : write b = .ok (.ok out)) (hlen : out.length < 2 ^ 64) :
+    WellFormed b.version out := by
+  cases hv : b.version with
+  | b1 => exact write_b1_wellFormed b hv out h hlen
+  | b2 => exact write_b2_wellFormed b hv out h hlen
 
 end WebPkg.Bundle
